@@ -139,10 +139,16 @@ def run_case(ctx, g, rng):
         if rng.random() < 0.4:
             k, j = meta + str(rng.randint(1, 3)), meta + str(rng.randint(4, 5))
             ksyn = (meta + "3",) if k != meta + "3" and rng.random() < 0.5 else ()
+        elif rng.random() < 0.4:
+            # ... or names that are legitimate and unusual: the empty prefix (the default namespace of a Turtle / JSON-LD
+            # document), "0", a blank - as canonical prefix or as synonym (seed C19-O: "" is falsy)
+            k = rng.choice(["", "", "0", " ", "k"])
+            ksyn = (rng.choice(["", "0"]),) if k == "k" else ()
+            j = rng.choice(["j", "0j"])
         recs = [spec.Rec(k, "http://x/a_", ksyn, ("http://x/b#",) if rng.random() < 0.5 else (), None)]
         if rng.random() < 0.4:
             recs.append(spec.Rec(j, "http://y#", (), (), None))
-        conv, _how = gen.build(api, recs, ":", rng)
+        conv, _how = gen.build(api, recs, rng.choice([":", ":", "/", "::"]), rng)
     kw = {"cutoff": cutoff, "metaprefix": meta}
     if delims is not None:
         kw["delimiters"] = delims if rng.random() < 0.7 else tuple(delims)
